@@ -166,3 +166,27 @@ Lemma c02_refuted_controls_survive cs :
 Proof. cbn. discriminate. Qed.
 Theorem c02_modifiers_one_shot h k : fst (issue true true h k) = cleared.
 Proof. destruct k; reflexivity. Qed.
+
+(* ---- the request bytes written by the unchanged client for one call of each operation (round-0 probe over the in-memory transport),
+        against the model's builders through the Ber.v encoder ---- *)
+Require Import Coq.Strings.String.
+From S Require Filter.
+Definition hexd (n : N) : Ascii.ascii := Ascii.ascii_of_N (if N.ltb n 10 then 48 + n else 87 + n).
+Fixpoint tohex (l : list byte) : string :=
+  match l with nil => EmptyString | cons b r => String (hexd (N.div (Byte.to_N b) 16)) (String (hexd (N.modulo (Byte.to_N b) 16)) (tohex r)) end.
+Definition sb (s : string) := Filter.s2b s.
+Definition wire (id : Z) (t : tree) : string := tohex (encode (envelope_of id t None)).
+Example c02_probe_bytes :
+  wire 1 (build_simple_bind (sb "cn=a") (sb "pw")) = "3012020101600d0201030404636e3d6180027077"%string /\
+  option_map (fun f => wire 2 (build_search (sb "dc=x") 2 default_opts f (cons (sb "cn") (cons (sb "sn") nil)))) (Filter.parse (sb "(cn=a)")) =
+    Some "302d0201026328040464633d780a01020a0100020100020100010100a3070402636e04016130080402636e0402736e"%string /\
+  option_map (wire 3) (build_add (sb "cn=a") (cons (sb "cn", cons (sb "a") nil) nil)) = Some "301802010368130404636e3d61300b30090402636e3103040161"%string /\
+  wire 4 (build_compare (sb "cn=a") (sb "cn") (sb "v")) = "30140201046e0f0404636e3d6130070402636e040176"%string /\
+  wire 5 (build_delete (sb "cn=a")) = "30090201054a04636e3d61"%string /\
+  option_map (wire 6) (build_modify (sb "cn=a") (cons (2%Z, sb "sn", cons (sb "x") nil) nil)) =
+    Some "301d02010666180404636e3d613010300e0a010230090402736e3103040178"%string /\
+  wire 7 (build_moddn (sb "cn=a") (sb "cn=b") true None) = "30140201076c0f0404636e3d610404636e3d620101ff"%string /\
+  wire 8 (build_extended (sb "1.3.6.1.4.1.4203.1.11.3") None) = "301e02010877198017312e332e362e312e342e312e343230332e312e31312e33"%string /\
+  wire 9 (build_abandon 5) = "3006020109500105"%string /\
+  wire 10 build_unbind = "300502010a4200"%string.
+Proof. vm_compute. repeat split. Qed.
